@@ -60,7 +60,7 @@ def render(case):
     lib = "k = 2\n" + fn
     lib += "class Box:\n    def __init__(self, v):\n        self.val = v\n        self.other = 1\n"
     lib += "    def bump(self, d):\n"
-    lib += "        self.val += d\n" if case["self_aug"] else "        self.val = self.val + d\n"
+    lib += ("        self.val %s d\n" % ["+=", "-=", "*="][len(case["uses"]) % 3]) if case["self_aug"] else "        self.val = self.val + d\n"
     lib += "        return self.val\n"
     lib += "    def scale(self, m):\n        tmp = self.val * m\n"
     lib += "        return tmp + m + (self.val - self.other)\n" if case["self_read_in_expr"] else "        return tmp + m\n"
@@ -85,7 +85,7 @@ def render(case):
         elif kind == "write":
             t += "%s.val = %d\nprint(%s.val)\n" % (o, n + 10, o)
         elif kind == "aug":
-            t += "%s.val += %d\nprint(%s.val)\n" % (o, n, o)
+            t += "%s.val %s %d\nprint(%s.val)\n" % (o, ["+=", "-=", "*="][n % 3], n, o)
         elif kind == "expr":
             t += "print(%s.val * 2 + %s.bump(1))\n" % (o, o)
         elif kind == "read_twice":
